@@ -163,7 +163,7 @@ func TestPreprocess(t *testing.T) {
 	var cases []stored
 	seen := map[string]bool{}
 	seq := 0
-	n := rec.Scale(120, 1200)
+	n := rec.Scale(80, 1000)
 	if k, _ := strconv.Atoi(os.Getenv("C39_N")); k > 0 {
 		n = k // development only
 	}
